@@ -46,6 +46,9 @@ func regressions() [][]op {
 		// a MID that was sent is queued again (corrected copy) and sent again: it ends up in sent/ only, with the new content
 		{a(0, "A", false), {K: opSent, M: 0}, {K: opAdd, M: 0, V: variant{"A", false}, L: 900, T: "corrected"}, {K: opSent, M: 0}},
 		{a(0, "A", false), {K: opSent, M: 0}, {K: opRestart}, {K: opAdd, M: 0, V: variant{"B", false}, L: 40, T: "again"}, {K: opPrepare}, {K: opSent, M: 0}, {K: opRestart}},
+		// a stored inbox message moved elsewhere with a link left under its name
+		{{K: opInbound, M: 0}, {K: opLinkOut, M: 0}, {K: opRestart}, {K: opRead, M: 0}},
+		{{K: opInbound2, M: 1}, {K: opLinkOut, M: 2}, {K: opLinkOut, M: 1}, {K: opPrepare}},
 		// overwrite in the outbox with another variant of the same MID
 		{a(1, "AB", true), a(1, "A", false), {K: opSent, M: 1}},
 	}
@@ -207,6 +210,8 @@ func runRandom(o *vrt.Obs, p params) {
 				cand = op{K: opRead, M: r.Intn(3)}
 			case w < 95:
 				cand = op{K: opInboundBad, M: r.Intn(3), L: vrt.Pick(r, lens), T: fmt.Sprint(r.Intn(3))}
+			case w < 97:
+				cand = op{K: opLinkOut, M: r.Intn(3)}
 			default:
 				cand = op{K: opRestart}
 			}
